@@ -8,7 +8,7 @@ import itertools
 import random
 
 ABS_TERMS = ['a', 'b', 'c']
-ABS_NTS = ['E', 'X', 'Y', 'Z', 'S']
+ABS_NTS = ['E', 'X', 'Y', 'Z', 'S', 'Q']      # 'Q' is only used as a ProdSequence symbol
 
 # ----------------------------------------------------------------------------------------------
 # lexicons: a tokenizer configuration + for each abstract terminal the token name the tokenizer
@@ -58,9 +58,9 @@ LEXICONS = {
 LEX_ORDER = ['plain', 'kwsyn1', 'skipc', 'kwsyn2']
 
 NAMESETS = [
-    ['E', 'X', 'Y', 'Z', 'S'],
-    ['Expr', 'X1', 'Yy', 'Zed', 'Start'],
-    ['M', 'D', 'B', 'Q', 'A'],          # another relative name order (the constructor sorts by name)
+    ['E', 'X', 'Y', 'Z', 'S', 'Q'],
+    ['Expr', 'X1', 'Yy', 'Zed', 'Start', 'Items'],
+    ['M', 'D', 'B', 'Q', 'A', 'L'],          # another relative name order (the constructor sorts by name)
 ]
 
 
@@ -128,7 +128,12 @@ def concretize(prods, start, nterm, lex, nameset):
     ren = {a: tnames[i] for i, a in enumerate(ABS_TERMS)}
     for i, n in enumerate(ABS_NTS):
         ren[n] = NAMESETS[nameset][i]
-    cp = [[ren[nt], [[ren[s] for s in alt] for alt in alts]] for nt, alts in prods]
+    cp = []
+    for nt, alts in prods:
+        if isinstance(alts, dict):      # {'seq': [symbols]} == ProdSequence(*symbols)
+            cp.append([ren[nt], {'seq': [ren[s] for s in alts['seq']]}])
+        else:
+            cp.append([ren[nt], [[ren[s] for s in alt] for alt in alts]])
     return cp, ren[start], tnames[:nterm]
 
 
@@ -275,10 +280,33 @@ def fam_nested3():
                 yield 'nested3', [('E', [('a',) + t for t in al]), ('X', list(xd))], 'E', 3
 
 
+SEQ_POOL = [('Q', 'c'), ('Q', 'b'), ('a', 'Q', 'c'), ('a', 'Q', 'b'), ('a', 'a', 'Q', 'c'), ('Q', 'c', 'Q'),
+            ('a', 'Q'), ('Q',), ('b', 'Q', 'c'), ('Y', 'c'), ('a', 'Y', 'c'), ('X', 'Q', 'c')]
+SEQ_DEFS = [['a'], ['a', 'b'], ['a', 'Z']]
+SEQ_AUX = {'X': [('a',), ('a', 'b')], 'Y': [('Q', 'b'), ('Q',)], 'Z': [('b', 'b'), ('b',)]}
+
+
+def fam_seq():
+    """Q = ProdSequence(...) (a template production: any sequence of the given symbols; the raw tree
+    holds ONE node Q whose value is the list of matched element nodes).  E -> 2..3 ordered alternatives
+    that use Q behind 0..2 leading symbols and before different terminators, so that an alternative
+    which has already matched Q fails, is rolled back, and a later alternative parses Q again starting
+    at a LATER token; Q also inside Y (Y -> Q b | Q); elements terminals or the ambiguous Z."""
+    for k in (2, 3):
+        for al in itertools.permutations(SEQ_POOL, k):
+            for sd in SEQ_DEFS:
+                prods = [('E', list(al)), ('Q', {'seq': list(sd)})]
+                used = {s for a in al for s in a} | set(sd)
+                for aux in ('X', 'Y', 'Z'):
+                    if aux in used:
+                        prods.append((aux, list(SEQ_AUX[aux])))
+                yield 'seq', prods, 'E', 3
+
+
 def random_grammar(rng):
     nnt = rng.choice([1, 2, 2, 3, 3, 4])
     nterm = rng.choice([2, 3])
-    nts = ABS_NTS[:nnt]
+    nts = ABS_NTS[:nnt]         # never 'Q'
     terms = ABS_TERMS[:nterm]
 
     def sym(first, i):
@@ -331,6 +359,7 @@ def build_plan(tier, seed):
     take(fam_prefix((4,)), 0.0 if quick else 0.03)
     take(fam_rollback(), 0.1 if quick else 0.7)
     take(fam_nested3(), 0.03 if quick else 0.25)
+    take(fam_seq(), 0.15 if quick else 0.6)
     nrand = 2000 if quick else 20000
     r2 = random.Random(seed * 7777 + 5)
     for _ in range(nrand):
